@@ -1134,6 +1134,9 @@ std::size_t Preprocessor::calculateHash(const std::string &toolinfo) const
         }
     }
     for (const auto &filedata : mFileCache) {
+        // a header without tokens (empty, comments only) still makes a difference to missingInclude
+        hashData += filedata->filename;
+        hashData += '\n';
         for (const simplecpp::Token *tok = filedata->tokens.cfront(); tok; tok = tok->next) {
             if (!tok->comment) {
                 hashData += tok->str();
